@@ -35,7 +35,7 @@ func init() {
 	}
 	h.Register(&h.Prop{
 		ID:   "C12",
-		Rule: "cases: per entry point (sess xpub gdkg dkgs stage dpk tobig qloop rsign subm b32 crseed dec dpipe rid disp conn mdisp listen serf inv) structured messages with every field nil/empty/short/long/identity/out-of-range singly (quick) and in pairs (thorough), each followed by a valid message to the same handler; fz* = arbitrary bytes to the packet decoder, the handshake, sealed deal plaintexts, share sets and documents/selectors to dataParse (oracle only: no panic, no hang); non-trivial = at least one field of the case is not the honest value (or the line is a fuzz case); distinct = distinct case line",
+		Rule: "cases: per entry point (sess xpub gdkg dkgs stage dpk tobig qloop rsign subm b32 crseed dec dpipe rid disp conn conns mdisp listen serf inv) structured messages with every field nil/empty/short/long/identity/out-of-range singly (quick) and in pairs (thorough), each followed by a valid message to the same handler; fz* = arbitrary bytes to the packet decoder, the handshake, sealed deal plaintexts, share sets and documents/selectors to dataParse (oracle only: no panic, no hang); non-trivial = at least one field of the case is not the honest value (or the line is a fuzz case); distinct = distinct case line",
 		Gen:  gen,
 		Exec: execParent,
 	})
